@@ -659,6 +659,10 @@ def fs_trace_profile_write(ctx):
             if target is None:
                 bad_atomic.add("the value is written straight to %s and nothing is moved over the profile file afterwards: the profile file itself is opened with a truncating mode - a crash during the write leaves an empty or partial config (the key pair is lost)" % show(writes[0][1][2][0])[:50])
                 continue
+            for i, e2 in enumerate(events):
+                if e2[0] == "call" and e2[2] and e2[2][0] == target and e2[1].split(".")[-1] in ("replace", "rename", "remove", "unlink", "move", "truncate"):
+                    bad_atomic.add("the profile file itself is %s (%s) before the new one is in place: if the process dies right after that, the profile has no configuration file at all - neither the previous nor the new one loads" % (
+                        "moved away" if e2[1].split(".")[-1] in ("replace", "rename", "move") else "removed", e2[1]))
             if not (mentions(target, STORAGE) and mentions(target, NAME)):
                 bad_atomic.add("the file that is replaced (%s) is not `name` inside the profile's storage directory" % show(target)[:60])
             for oi, ev in writes:
